@@ -41,7 +41,8 @@ META = {
                   "records of the final faces / cells; C02_edges_nodup_if_declared_distinct / C02_side_once_if_declared_distinct: "
                   "the whole edge list is duplicate-free under the NAMED GUARD that the surviving declared edges are pairwise "
                   "distinct, and C02_edges_nodup_refuted shows it is false without it (known finding "
-                  "edge-list/duplicate-declared). Container independence (lists / tuples / numpy rows / append "
+                  "edge-list/duplicate-declared); C02_failed_prepare_left: a construction that raises leaves the raw data with every "
+                  "earlier step applied and cell_faces untouched (retry on the same object). Container independence (lists / tuples / numpy rows / append "
                   "/ from_arrays) has no counterpart in the model and is only tested: kernel-checked correspondence batches "
                   "compare every route with the one model answer, and the oracle compares the routes with each other "
                   "including a script of later connectivity queries.",
@@ -57,7 +58,13 @@ META = {
                   "they are; (4) file routes start from what the importer produced (parsing itself is C04); cell_faces is "
                   "never pre-filled by an importer and is covered only for an empty or previously generated container; (5) "
                   "connectivity scripts run on well-formed inputs with both switches on, container-level operations (copy, "
-                  "merge, attributes, save/load, rows handed back) on every case.",
+                  "merge, attributes, save/load, rows handed back) on every case; (6) round-5 hardening scenarios are tested, not "
+                  "proved: public properties of the raw data read between the filling steps / edits and the build, repeated "
+                  "prepare(), positional / keyword / explicit-None call forms and direct class constructors, numpy index types "
+                  "int32 / uint8 / mixed numpy scalars, indices beyond 256, config switches given as bool / int / np.bool_, "
+                  "coincident vertices, a twin mesh built from equal arguments and spoiled in place, the caller's rows and "
+                  "arrays mutated after the build; decorators and non-constant default arguments on anchored callables make "
+                  "the translator fail closed.",
 }
 
 HEADER = """From Coq Require Import ZArith List Bool.
@@ -119,6 +126,8 @@ def edit_term(e):
     k = e[0]
     simple = {"clear_fc": "EClearFC", "clear_cc": "EClearCC", "clear_cf": "EClearCF", "clear_edges": "EClearEdges",
               "clear_faces": "EClearFaces", "clear_cells": "EClearCells", "pop_face": "EPopFace", "pop_cell": "EPopCell"}
+    if k == "peek":
+        return "EPeek"
     if k in simple:
         return simple[k]
     if k == "add_vertex":
@@ -200,7 +209,7 @@ def shrink(case, key):
             i = 0
             while i < len(cur["edits"][k]) and budget > 0:
                 grp = cur["edits"][k]
-                structural = [e for e in grp if e[0] not in O.CLEARS]
+                structural = [e for e in grp if e[0] not in O.QUIET]
                 if grp[i][0] in O.CLEARS and structural:
                     i += 1   # keep the editors' discipline: containers are cleared whenever the data is edited
                     continue
@@ -284,10 +293,16 @@ def run(ctx):
             ctx.count("route " + r)
         ctx.count("rewraps %d" % c["rewraps"])
         for es in c.get("edits") or []:
-            ctx.count("rebuild after " + ("no edit" if not es else "clears only" if all(e[0] in O.CLEARS for e in es)
+            ctx.count("rebuild after " + ("no edit" if not es else "clears / peeks only" if all(e[0] in O.QUIET for e in es)
                                           else "whole-container clear" if any(e[0] in ("clear_edges", "clear_faces", "clear_cells") for e in es)
                                           else "structural edits + clears" if any(e[0] in O.CLEARS for e in es)
                                           else "added edge" if all(e[0] == "add_edge" for e in es) else "faces edited, corners not cleared"))
+        for kk in ("peek", "prep_calls", "idtype", "cfgrepr"):
+            if c.get(kk) not in (None, 0, "int64"):
+                ctx.count("%s=%s" % (kk, c.get(kk)))
+        if c.get("twin"):
+            ctx.count("twin build + inputs mutated afterwards")
+        ctx.count("call form %d" % (c.get("callform", 0) % 4))
         ctx.count("declared edges %s" % ("0" if not c["edges"] else "1-4" if len(c["edges"]) < 5 else "5+"))
         for a in c["eattrs"]:
             ctx.count("attr %s%s%s" % ("dense" if a["dense"] else "sparse", " default" if a["default"] is not None else "",
